@@ -25,7 +25,7 @@ disturb them, while dropping one of the exit tests, or changing how `last` advan
 import FontVerif.Gen.BluesScan
 import FontVerif.Lemmas.LoopIter
 namespace FontVerif.C02
-open FontVerif.LoopIter FontVerif.LoopIterLemmas FontVerif.Gen.BluesScan
+open FontVerif.LoopIter FontVerif.LoopIterLemmas FontVerif.Gen.BluesScan FontVerif.FindLastContour
 set_option linter.unusedVariables false
 
 /-- every `continue` / end of body of the INNER loop is reached with `last` advanced cyclically and
@@ -131,6 +131,67 @@ theorem blues_long_scan_terminates_from_entry (o : Nat → Nat → Bool) (h : Na
     · rw [h]; exact cycleIx_lt _ _ _ hn
   obtain ⟨s', e1, _, e3⟩ := blues_long_scan_terminates o h ⟨segmentLast, segmentFirst, n, tick⟩ hn h2 h1
   exact ⟨s', e1, e3, fun s hs hl hf => blues_long_scan_no_underflow o h s (by omega) (by omega) (by omega)⟩
+
+/-! ### `find_last_contour`: where `best_contour` and `best_point_ix` come from -/
+
+/-- one iteration of `find_last_contour` keeps its invariant (in particular `point_ix - cur_contour.start` does not
+underflow and the new `best_point` is inside `cur_contour`), for ARBITRARY `is_contour_start` flags and predicate -/
+theorem find_last_contour_step_inv (isStart f : Nat → Bool) (len p : Nat) (st : FS) (hp : p < len)
+    (hI : FlcInv isStart len p st) : FlcInv isStart len (p + 1) (step isStart f len st p) := by
+  obtain ⟨h1, h2, h3, h4, h5, h6⟩ := hI
+  unfold FlcInv step
+  cases hs : isStart p <;> cases hfd : st.found <;> cases hf : f p <;>
+    by_cases hk : (p + 1 < len → isStart (p + 1) = true) <;>
+    simp_all <;> omega
+
+theorem find_last_contour_loop_inv (isStart f : Nat → Bool) (len : Nat) :
+    ∀ (k p : Nat) (st : FS), p + k = len → FlcInv isStart len p st →
+      FlcInv isStart len len (FontVerif.FindLastContour.loop isStart f len p k st) := by
+  intro k
+  induction k with
+  | zero => intro p st hp hI; simp at hp; subst hp; exact hI
+  | succ k ih =>
+    intro p st hp hI
+    exact ih (p + 1) _ (by omega) (find_last_contour_step_inv isStart f len p st (by omega) hI)
+
+/-- **Postcondition of `find_last_contour`**: for every outline (any number of points, ANY `is_contour_start`
+flags — no well-formedness is needed) and every predicate, a returned `(best_contour, best_point)` has
+`best_contour` a non-empty range inside `0..points.len()` and `best_point < best_contour.len()`. -/
+theorem find_last_contour_post (isStart f : Nat → Bool) (len bS bE bP : Nat)
+    (h : findLastContour isStart f len = some (bS, bE, bP)) : bS < bE ∧ bE ≤ len ∧ bP < bE - bS := by
+  have hI := find_last_contour_loop_inv isStart f len len 0 ⟨0, 0, 0, 0, 0, false⟩ (by omega)
+    (by unfold FlcInv; simp)
+  unfold findLastContour at h
+  obtain ⟨h1, h2, h3, h4, h5, h6⟩ := hI
+  generalize FontVerif.FindLastContour.loop isStart f len 0 len ⟨0, 0, 0, 0, 0, false⟩ = st at *
+  cases hfd : st.found <;> simp [hfd] at h h5 h6 <;>
+    (obtain ⟨hlt, e1, e2, e3⟩ := h; subst e1 e2 e3; omega)
+
+/-- **The long-blue scan exits, with NO index hypothesis left**: `best_contour` / `best_point_ix` are what
+`find_last_contour` returned (`n = best_contour.len()`), `segment_first` / `segment_last` are `best_point_ix` or
+indices yielded by `cycle_backward` / `cycle_forward` over `best_contour`; then the scan, started at
+`last = segment_last`, exits within `n + 1` outer body executions, `(n+1)(n+2)` loop-body entries, and no control
+subtraction underflows on the way.  (Both branches of `best_contour_and_point` in `compute_default_blues` call `outline.find_last_contour`;
+translate/c02_blues.py checks that and the body of `find_last_contour` on every run.) -/
+theorem blues_long_scan_terminates_from_find_last_contour (o : Nat → Nat → Bool) (h : Nat → Nat → Nat)
+    (isStart f : Nat → Bool) (len bS bE bestPointIx segmentFirst segmentLast tick : Nat)
+    (hflc : findLastContour isStart f len = some (bS, bE, bestPointIx))
+    (hsf : segmentFirst = bestPointIx ∨ ∃ ix, segmentFirst = cycleIx (bE - bS) bestPointIx ix)
+    (hsl : segmentLast = bestPointIx ∨ ∃ ix, segmentLast = cycleIx (bE - bS) (bestPointIx + 1) ix) :
+    bE ≤ len ∧ 0 < bE - bS ∧
+    ∃ s', iter (outerStep o h) (bE - bS + 1) ⟨segmentLast, segmentFirst, bE - bS, tick⟩ = some s' ∧
+      s'.tick ≤ tick + (bE - bS + 1) * (bE - bS + 2) := by
+  obtain ⟨h1, h2, h3⟩ := find_last_contour_post isStart f len bS bE bestPointIx hflc
+  obtain ⟨s', e1, e2, _⟩ := blues_long_scan_terminates_from_entry o h (bE - bS) bestPointIx segmentFirst segmentLast tick
+    h3 hsf hsl
+  exact ⟨h2, by omega, s', e1, e2⟩
+
+/-- find_last_contour on 2 contours (points 0-2 and 3-6), predicate true at points 1 and 5: contour 3..7, point 2 -/
+example : findLastContour (fun i => i == 0 || i == 3) (fun i => i == 1 || i == 5) 7 = some (3, 7, 2) := by decide
+/-- a single-point contour (4) is ignored; nothing found → None -/
+example : findLastContour (fun i => i == 0 || i == 4) (fun _ => false) 5 = none := by decide
+/-- flags need not be well formed: no contour start at point 0 -/
+example : findLastContour (fun i => i == 2) (fun i => i == 1) 4 = some (0, 2, 1) := by decide
 
 /-! ### Non-vacuity (the generated definitions, evaluated) -/
 
